@@ -364,6 +364,11 @@ def readers_rule(ctx, report, rule="READ"):
                     base, n = payload_base(a.a[1]["0"])
                     if n == 2:
                         src = strip(base)
+                elif a.k == "call" and a.a[0].name == "ok" and a.a[0].fn.startswith("std::result::Result") and len(a.a[1]) == 1:
+                    # `self.get_decodable::<u16>(KEY)?.ok()`
+                    base, n = payload_base(a.a[1][0])
+                    if n == 1:
+                        src = strip(base)
                 if src is not None and src.k == "call" and src.a[0].target() == "Enr::<K>::get_decodable":
                     targs = [t["s"] for t in src.a[0].targs]
                     k = const_key(src.a[1][1])
@@ -532,6 +537,8 @@ def socket_truth_table(ctx, f, an, ipg, portg, ctor):
             return (r[0], True) if r else None
         if e.k == "call" and e.a[0].target() == "Enr::<K>::" + ipg and e.a[1] and strip(e.a[1][0]).k == "param":
             return ("ip", False)
+        if e.k == "call" and e.a[0].name == "ok" and e.a[0].fn.startswith("std::result::Result") and port_read_key(e) == want_port:
+            return ("port2", False)
         if e.k == "call" and port_read_key(e) == want_port:
             return ("port", False)
         if e.k == "call" and e.a[0].name == "and_then" and e.a[1] and port_read_key(e) == want_port:
@@ -539,16 +546,27 @@ def socket_truth_table(ctx, f, an, ipg, portg, ctor):
         return None
 
     seen_parts = set()
+    # is the port read as two tests (`get_decodable(KEY)?` then `.ok()?`)? then "absent" is two scenarios
+    two_step = False
+    for n_ in an.cfg.nodes:
+        info = an.switch_info(n_)
+        if info and strip(info[0]).k == "discr":
+            r_ = part(strip(info[0]).a[0])
+            if r_ is not None and r_[0] == "port2":
+                two_step = True
     for A in (True, False):
-        for B in (True, False):
-            val = {"ip": A, "port": B}
+        for B, B2 in ((True, True), (False, None)) + (((True, False),) if two_step else ()):
+            val = {"ip": A, "port": B, "port2": B2}
+            B = B and B2 is not False
 
             def pred(cond, names, _val=val):
                 c = strip(cond)
                 if c.k == "discr" and names:
                     r = part(c.a[0])
                     if r is not None:
-                        seen_parts.add(r[0])
+                        seen_parts.add("port" if r[0] == "port2" else r[0])
+                        if _val[r[0]] is None:
+                            return None
                         if r[1]:
                             return {"Continue"} if _val[r[0]] else {"Break"}
                         return {"Some"} if _val[r[0]] else {"None"}
@@ -566,6 +584,11 @@ def socket_truth_table(ctx, f, an, ipg, portg, ctor):
                             a1 = ok_payload(strip(v.a[1][1]))
                             c0 = a0 is not None and strip(a0).k == "call" and strip(a0).a[0].target() == "Enr::<K>::" + ipg
                             c1 = a1 is not None and port_read_key(strip(a1)) == want_port
+                            if not c1:
+                                # the u16 inside `get_decodable::<u16>(KEY)` reached through `?`, `.ok()`, `?`
+                                pb_, n_ = payload_base(v.a[1][1])
+                                pbs_ = strip(pb_)
+                                c1 = pbs_.k == "call" and port_read_key(pbs_) == want_port and ((pbs_.a[0].name == "ok" and n_ == 1) or (pbs_.a[0].target() == "Enr::<K>::get_decodable" and n_ == 2))
                             rest = all(strip(x).k == "const" and strip(x).a[0] == 0 for x in v.a[1][2:])
                             good = c0 and c1 and rest
                     if not good:
@@ -589,6 +612,12 @@ def port_read_key(e):
     # (in success-flow normal form the `.and_then(Result::ok)` is already looked through)
     if tgt == "Enr::<K>::get_decodable" and len(e.a[1]) == 2 and len(e.a[0].targs) > 1 and e.a[0].targs[1]["s"] == "u16" and strip(e.a[1][0]).k == "param":
         return const_key(e.a[1][1])
+    if e.a[0].name == "ok" and e.a[0].fn.startswith("std::result::Result") and len(e.a[1]) == 1:
+        # `self.get_decodable::<u16>(KEY)?.ok()`: the second of two presence tests
+        base, n = payload_base(e.a[1][0])
+        base = strip(base)
+        if n == 1 and base.k == "call" and base.a[0].target() == "Enr::<K>::get_decodable" and len(base.a[1]) == 2 and len(base.a[0].targs) > 1 and base.a[0].targs[1]["s"] == "u16" and strip(base.a[1][0]).k == "param":
+            return const_key(base.a[1][1])
     if e.a[0].name == "and_then" and len(e.a[1]) == 2:
         f2 = strip(e.a[1][1])
         inner = strip(e.a[1][0])
@@ -614,7 +643,11 @@ def none_only_when_missing(ctx, report, rule, f, ipg, portg):
             for d, cond, allowed, alll in an.constraints_at(pb) + ([] if pb == bb else an.constraints_at(bb)):
                 if cond.k == "discr" and allowed <= {"None"}:
                     c = strip(cond.a[0])
+                    if c.k == "call" and c.a[0].name == "branch" and c.a[1]:
+                        c = strip(c.a[1][0])
                     if c.k == "call" and c.a[0].name in (ipg, portg):
+                        okp = True
+                    if c.k == "call" and port_read_key(c) == PORT_GETTERS["Enr::<K>::" + portg]:
                         okp = True
             if not okp:
                 bad.append(pb)
@@ -903,6 +936,12 @@ def _socket_keys(f, an, sock_param, flag_param, fam, fv, problems):
             return {fam}
         if flag_param is not None and c.k == "param" and c.a[0] == flag_param:
             return _bool_keep(bool(fv) != neg)
+        # std: SocketAddr::is_ipv4() <=> matches!(self, V4(_)) <=> self.ip() is IpAddr::V4 (is_ipv6 likewise; same on IpAddr)
+        if c.k == "call" and c.a[0].name in ("is_ipv4", "is_ipv6") and c.a[0].krate in ("core", "std") and len(c.a[1]) == 1:
+            x = strip(c.a[1][0])
+            own = (x.k == "param" and x.a[0] == sock_param) or (x.k == "call" and x.a[0].name == "ip" and "SocketAddr" in x.a[0].fn and strip(x.a[1][0]).k == "param" and strip(x.a[1][0]).a[0] == sock_param)
+            if own:
+                return _bool_keep(((fam == "V4") == (c.a[0].name == "is_ipv4")) != neg)
         return None
     # any V4/V6 decision must be taken on the socket's own address
     for n in an.cfg.nodes:
